@@ -9,14 +9,24 @@ grp = "--group" in only  # the target property's family of checks only (flow / b
 GROUPS = [["C01", "C02", "C03", "C04", "C05", "C10", "C18", "C19"], ["C06", "C07", "C08", "C09", "C11", "C12", "C17", "C20"], ["C13", "C14", "C15", "C16"]]
 only = [o for o in only if not o.startswith("--")]
 rows = []
-for d in sorted(glob.glob(os.path.join(src, "C*"))):
-    prop = os.path.basename(d)[:3]
-    for ab in ("A", "B"):
-        name = f"{os.path.basename(d)}-{ab}"
-        if only and not any(name.startswith(o) for o in only):
+# two layouts: the sub-agents' output (<src>/Cxx/{A,B}.diff, demo_{a,b}_test.go) and the kept set (seeded/<rN>-Cxx-{A,B}/patch.diff, demo_test.go;
+# there the filters are prefixes of the full id, e.g. "r3-" or "r3-C11-B")
+todo = []
+if os.path.basename(os.path.normpath(src)) == "seeded":
+    for d in sorted(glob.glob(os.path.join(src, "r*-C*-[AB]"))):
+        rid = os.path.basename(d)
+        if only and not any(rid.startswith(o) for o in only):
             continue
-        patch = os.path.join(d, ab + ".diff")
-        demo = os.path.join(d, f"demo_{ab.lower()}_test.go")
+        todo.append((rid.split("-", 1)[1], rid.split("-")[1], os.path.join(d, "patch.diff"), os.path.join(d, "demo_test.go")))
+else:
+    for d in sorted(glob.glob(os.path.join(src, "C*"))):
+        for ab in ("A", "B"):
+            name = f"{os.path.basename(d)}-{ab}"
+            if only and not any(name.startswith(o) for o in only):
+                continue
+            todo.append((name, os.path.basename(d)[:3], os.path.join(d, ab + ".diff"), os.path.join(d, f"demo_{ab.lower()}_test.go")))
+for name, prop, patch, demo in todo:
+    if True:
         if not os.path.exists(patch):
             continue
         out = f"/tmp/agent-{os.getpid()}-{name}.json"
